@@ -92,7 +92,31 @@ CLAIMED["C12"] = dict(
        "Known finding: shared file_dir of copies in file mode.",
   ref="DESIGN.md section 5 (C12)", engine="tlc-simcache")
 
+CLAIMED["C11"] = dict(
+  technique="TLA+ model of process_map / worker pool / positional result "
+            "storing (ProcessMap.tla) checked by TLC over all interleavings "
+            "+ TLC trace validation of Start/Finish/Return/Store events "
+            "logged by real worker processes under forced completion orders "
+            "+ bit-identity with the sequential run",
+  text="TLC checks OrderPreserved, SlotOwnResult, ExactlyOnce, NoDoubleRun, "
+       "SeqInOrder, Idempotent and eventual storing for all interleavings of "
+       "4 tasks on 3 workers, all four branches of process_map, two batches. "
+       "Real 2x2 source-frequency surveys are computed with max_workers in "
+       "1..16, memory/file mode, tqdm on/off and per-task delays that force "
+       "chosen completion orders; each forward, back-propagation, J v and "
+       "repeated batch is validated by TLC against the model and fields, "
+       "data, misfit, gradient and J v must be bit-identical to the "
+       "sequential in-memory run.",
+  note="Trusted: TLC; concurrent.futures/tqdm as environment (their contract "
+       "is recorded in the Return events); the harness wraps "
+       "_mp.process_map so that each task carries its index.  Completion "
+       "orders that the scheduler did not realise only lower coverage.",
+  ref="DESIGN.md section 5 (C11)", engine="tlc-processmap")
+
 ENGINES = [
+ dict(name="tlc-processmap", path="spec/ProcessMap.tla",
+      serves_properties=["C11"],
+      kind_free_text="TLA+ spec + TLC exhaustive + TLC trace validation"),
  dict(name="tlc-simcache", path="spec/SimCache.tla",
       serves_properties=["C12"],
       kind_free_text="TLA+ spec + TLC exhaustive + behaviour replay"),
